@@ -176,6 +176,7 @@ def check(a):
                     violations.append((sig, r2))
         else:
             violations.append((sig, res))
+            log('violation group %s: %d occurrences in this run' % (sig, ent['count']))
     wall = time.time() - t0
     # ---- evidence
     level = 'fault_enumeration' if prop == 'C10' else 'exploration'
